@@ -1243,6 +1243,9 @@ func (f *frame) indexAddr(st *State, x *ssa.IndexAddr) (Value, bool) {
 				return it.topOf(x.Type(), nil), false
 			}
 			f.checkIndex(st, x, idx, NewConstInt(64, true, arr.Len()), nil)
+			if it.Hooks.Elem != nil {
+				it.Hooks.Elem(st, x, p.Obj, p.Path, idx, arr.Len())
+			}
 			tok, ph := indexToken(idx, arr.Len())
 			np := &Ptr{Obj: p.Obj, Path: p.Path + tok, Idx: p.Idx, Elem: elemT}
 			if ph != nil {
@@ -1258,6 +1261,9 @@ func (f *frame) indexAddr(st *State, x *ssa.IndexAddr) (Value, bool) {
 			eff := idx
 			if c, ok := p.Off.Const(); !ok || c != 0 {
 				eff, _ = BinInt(token.ADD, toShape(idx, 64, true), toShape(p.Off, 64, true))
+			}
+			if it.Hooks.Elem != nil {
+				it.Hooks.Elem(st, x, p.Obj, p.Path, eff, n)
 			}
 			tok, ph := indexToken(eff, n)
 			np := &Ptr{Obj: p.Obj, Path: p.Path + tok, Elem: elemT}
